@@ -452,6 +452,8 @@ fn observe(p: &Packet) -> std::result::Result<(), String> {
         // the text of the first label is what service discovery shows as the instance name, with and without escapes
         try_it("instance-name", &|| { if let Some(l) = r.name.get_labels().first() { for text in [l.to_string(), r.name.to_string()] { let i = simple_mdns::InstanceInformation::new(text); let _ = (i.escaped_instance_name(), i.unescaped_instance_name(), format!("{:?}", i)); } } })?;
         try_it("into-owned", &|| { let o = r.clone().into_owned(); let _ = o == *r; let _ = h(&o); let _ = h(&o.rdata); })?;
+        // ... against questions the caller builds itself (any type the constructors admit, the special ones, every class)
+        try_it("match-built-question", &|| { for code in [1u16, 12, 16, 33, 41, 47, 52, 99, 249, 250, 65280, 65535] { let _ = r.match_qtype(QTYPE::TYPE(TYPE::from(code))); } for q in [QTYPE::ANY, QTYPE::AXFR, QTYPE::IXFR, QTYPE::MAILA, QTYPE::MAILB] { let _ = r.match_qtype(q); } for c in [QCLASS::ANY, QCLASS::CLASS(CLASS::IN), QCLASS::CLASS(CLASS::CH), QCLASS::CLASS(CLASS::NONE)] { let _ = r.match_qclass(c); } let root = Name::new_unchecked(""); let _ = (r.name.is_subdomain_of(&root), r.name.without(&root), root.is_subdomain_of(&r.name), root.without(&r.name)); })?;
         try_it("name-relations", &|| { let _ = r.name.is_link_local(); for q in &p.questions { let _ = r.name.is_subdomain_of(&q.qname); let _ = r.name.without(&q.qname); let _ = r.match_qtype(q.qtype); let _ = r.match_qclass(q.qclass); } })?;
         match &r.rdata {
             RData::TXT(t) => {
@@ -501,6 +503,12 @@ pub fn c12(tier: &str, seed: u64) -> Vec<Case> {
         for l in labels { for m in labels { names.push(vec![l.to_vec(), m.to_vec()]); } }
         names.push(vec![b"a".to_vec(), b"b".to_vec(), b"c".to_vec()]);
         names.push(vec![b"office".to_vec(), b"_tcp".to_vec(), b"local".to_vec()]);
+        // labels that hold what other tools print as escape sequences (`\032` for a space, `\.`), valid and not: to this
+        // library they are characters like any other
+        for l in [&b"My\\032Printer"[..], b"Printer\\999", b"a\\256b", b"\\25", b"\\1", b"\\000", b"x\\03", b"\\\\032", b"tail\\", b"\\x20", b"%20", b"\\u0041", b"a\\.b\\.c", b"\\255\\255"] {
+            names.push(vec![l.to_vec()]);
+            names.push(vec![l.to_vec(), b"_ipp".to_vec(), b"_tcp".to_vec(), b"local".to_vec()]);
+        }
         // names ending in labels that code is apt to special-case, with few and many labels
         for tail in [&b"arpa"[..], b"ARPA", b"local", b"LOCAL", b"in-addr", b"ip6", b"_services", b"_dns-sd", b"_udp", b"localhost", b"invalid", b"test"] {
             names.push(vec![tail.to_vec()]);
